@@ -10,10 +10,10 @@ import (
 
 func init() {
 	register(&propCheck{
-		id:    "C07",
-		level: "other",
-		explanation: "Static necessary conditions of 'once closed, an archive filesystem serves nothing' and of the structural half of the zip round trip: (V1) every access of the backend (load of VFS.vfs) in package filesystem is dominated by the closed-resource guard and lies on the side where the guard returned nil; (V2) the closed flag and the wrapped closer are only touched under the resource's mutex, writes under the write lock; (V3) the guard answers with the 'failed condition' kind exactly when IsClosed() is true and guarded functions never turn the guard's error into success; (V4) the zip/tar filesystem constructors hand the opened archive file to the filesystem as the resource it closes, and VFS.Close closes it; (V5) Close marks the resource closed on every successful path and IsClosed reports that flag; (Z1) zip entry names are the walk paths relative to the source, directory entries end with '/', entries carry the file's modification time and the content copied is the opened source file's; (Z2) extraction restores times after the copy from the archive entry's info, and directory times after the loop on every successful path; (Z3) the name joined to the destination on extraction is the entry's own zip.FileHeader.Name, charset transcoding aside; (Z4) every way round the entry loop that creates an entry appends its path, or the paths of the nested extraction, to the list returned. Decided on SSA of the current sources; nothing is executed. Not decided: round-trip equality of trees, contents and times (value-level), behaviour of afero's zipfs/tarfs.",
-		run:   runC07,
+		id:              "C07",
+		level:           "other",
+		explanation:     "Static necessary conditions of 'once closed, an archive filesystem serves nothing' and of the structural half of the zip round trip: (V1) every access of the backend (load of VFS.vfs) in package filesystem is dominated by the closed-resource guard and lies on the side where the guard returned nil; (V2) the closed flag and the wrapped closer are only touched under the resource's mutex, writes under the write lock; (V3) the guard answers with the 'failed condition' kind exactly when IsClosed() is true and guarded functions never turn the guard's error into success; (V4) the zip/tar filesystem constructors hand the opened archive file to the filesystem as the resource it closes, and VFS.Close closes it; (V5) Close marks the resource closed on every successful path and IsClosed reports that flag; (Z1) zip entry names are the walk paths relative to the source, directory entries end with '/', entries carry the file's modification time and the content copied is the opened source file's; (Z2) extraction restores times after the copy from the archive entry's info, and directory times after the loop on every successful path; (Z3) the name joined to the destination on extraction is the entry's own zip.FileHeader.Name, charset transcoding aside; (Z4) every way round the entry loop that creates an entry appends its path, or the paths of the nested extraction, to the list returned. Decided on SSA of the current sources; nothing is executed. Not decided: round-trip equality of trees, contents and times (value-level), behaviour of afero's zipfs/tarfs.",
+		run:             runC07,
 		thoroughConfigs: []string{"darwin/amd64", "windows/amd64"},
 		assumptions: []string{
 			"afero zipfs/tarfs refuse mutating calls themselves (the read-only wrapper is not load-bearing and therefore not checked)",
